@@ -26,7 +26,8 @@ for n in ("length", "substring", "now", "contains", "matchesPattern", "geo.lengt
              "a.b." + base, "geo.x." + base]
 NEAR += ["matchespattern", "geo.now", "geo.contains", "distance", "intersects", "geo.zz", "zz", "not", "and", "in", "eq", "anyx",
          "cast", "isof", "exists", "has", "nullx", "truex", "mod1", "geo", "geo.geo.length", "ns.f", "ns.length", "n1.n2.f", "x.geo.length"]
-NAMES = BUILTINS + sorted(set(NEAR))
+NEAR += ["geo." + n for n in REF_FUNCTIONS if "." not in n]      # every bare built-in moved into the geo namespace
+NAMES = BUILTINS + sorted(set(NEAR) - set(BUILTINS))
 
 a, b, one = T.I("a"), T.I("b"), T.Int(1)
 ARG_KINDS = [
@@ -153,6 +154,30 @@ def _named_unit(names):
     return acc
 
 
+def history_layer(ctx):
+    """the (name x count) matrix once more, serially in ONE process on ONE shared lexer/parser pair: in enumeration
+    order, in reverse order, and interleaved by bare name (X, geo.X, ns.X, X.upper() adjacent).  A verdict must not
+    depend on which calls were parsed before (memo tables keyed by a part of the name, registries, ...)."""
+    cases = []
+    for name in NAMES:
+        ident = ident_of(name)
+        for n in range(0, 4):
+            args = [ARG_KINDS[(i * 5 + 1) % len(ARG_KINDS)] for i in range(n)]
+            cases.append((name, call_text(name, args, "std"), expected(ident, args)))
+    by_bare = sorted(cases, key=lambda c: (c[0].split(".")[-1].lower(), len(c[1]), c[0]))
+    for order_name, seq in (("forward", cases), ("reverse", cases[::-1]), ("by-bare-name", by_bare), ("by-bare-name-reverse", by_bare[::-1])):
+        for name, text, exp in seq:
+            got = observe(text)
+            ctx.count("executions")
+            ctx.count("transitions")
+            if got != exp:
+                ctx.violation("history:%s:%s:%s->%s" % (order_name, _nameclass(name), exp[0], got[0]),
+                              {"layer": "history", "order": order_name, "text": text, "expected": exp, "observed": got})
+            else:
+                ctx.outcome(("history", order_name, exp[0]))
+    return len(cases)
+
+
 def judge_lr(entries, config, out, acc):
     toks = lrx.ref_tokens(entries)
     if not any(t[0] == "(" for t in toks):
@@ -187,6 +212,8 @@ def run(ctx):
     named_heads = ["ns.f", "n1.n2.f", "length", "substring", "now", "geo.length", "geo.zz", "zz", "Geo.length"]
     ctx.pmap(_named_unit, [[n] for n in named_heads])
     ctx.layer("named", heads=len(named_heads), counts="1..5", exhaustive=True)
+    nh = history_layer(ctx)
+    ctx.layer("history", cases=nh, orders=4, exhaustive=True)
     depth = 5 if ctx.quick else 7
     st = lrx.bfs(ctx, judge_lr, depth)
     ctx.layer("lr", bfs_depth=st["depth_completed"], exhaustive=st["complete_to_depth"], configurations=st["configs"],
@@ -206,6 +233,10 @@ def replay(ctx, case):
         config, out = lrx.run_prefix(ODataParser(), entries)
         judge_lr(entries, config, out, acc)
         return {"text": case["text"], "violations": acc.violations, "ok": not acc.violations}
+    if case["layer"] == "history":
+        acc = Acc()
+        history_layer(acc)
+        return {"violations": acc.violations[:5], "ok": not acc.violations}
     got = observe(case["text"])
     exp = _untuple(case["expected"])
     ok = (got == exp) if case["layer"] != "mixed" else got[0] not in ("accept", "foreign")
